@@ -191,6 +191,30 @@ def shapes(tier, seed):
     ok('F:enumeration-key-before-numeric-enumeration', cfgF(), {'mnemonic': 't', 'text': 't eq', 'uses': [{'set': 'any', 'id': 'e', 'key': 'eq'}]})
     ok('F:numeric-enumeration-for-a-number', cfgF(v1=(-1, 4)), {'mnemonic': 't', 'text': 't v1', 'uses': [{'set': 'any', 'id': 'ne', 'val': V('v1')}]},
        expect=['ok', 'rejected'])
+    # G: `[ix]` without an offset and an indexed form of the same register in one set (and in two variants): the plain
+    # form declines `[ix+v]` so that the indexed form is reached; `[ix+v]` with no form accepting it is rejected
+    idx = {'off': {'type': 'numeric', 'bytecode': code('g_n', 2), 'argument': arg(8, True)},
+           'ir': {'type': 'register', 'register': 'ra', 'bytecode': code('g_r', 2)}}
+    osetsG = {'mem': {'operand_values': {
+        'plain': {'type': 'indirect_register', 'register': 'ix', 'bytecode': code('g_p', 3)},
+        'idx': {'type': 'indirect_indexed_register', 'register': 'ix', 'bytecode': code('g_x', 3), 'index_operands': idx}}},
+        'plain_only': {'operand_values': {'plain': {'type': 'indirect_register', 'register': 'ix', 'bytecode': code('g_p', 3)}}},
+        'idx_only': {'operand_values': {'idx': {'type': 'indirect_indexed_register', 'register': 'ix', 'bytecode': code('g_x', 3),
+                                                'index_operands': idx}}}}
+    insG = {'t': {'bytecode': code('op', 4), 'operands': {'count': 1, 'operand_sets': {'list': ['mem']}}},
+            'u': {'bytecode': code('op_a', 4), 'operands': {'count': 1, 'operand_sets': {'list': ['plain_only']}},
+                  'variants': [{'bytecode': code('op_b', 4), 'operands': {'count': 1, 'operand_sets': {'list': ['idx_only']}}}]},
+            'w': {'bytecode': code('op_a', 4), 'operands': {'count': 1, 'operand_sets': {'list': ['plain_only']}}}}
+    cfgG = lambda **cs: isa(operand_sets=osetsG, instructions=insG, consts=cs)  # noqa
+    ok('G:plain-indirect', cfgG(), {'mnemonic': 't', 'text': 't [ix]', 'uses': [{'set': 'mem', 'id': 'plain'}]})
+    ok('G:indexed-after-plain-indirect-same-set', cfgG(v1=vrange(8)), {'mnemonic': 't', 'text': 't [ix+v1]', 'uses': [
+        {'set': 'mem', 'id': 'idx', 'index_id': 'off', 'index_val': V('v1')}]}, expect=['ok', 'rejected'])
+    ok('G:register-index-after-plain-indirect', cfgG(), {'mnemonic': 't', 'text': 't [ix + ra]', 'uses': [
+        {'set': 'mem', 'id': 'idx', 'index_id': 'ir'}]})
+    ok('G:indexed-in-later-variant', cfgG(v1=vrange(8)), {'mnemonic': 'u', 'variant': 1, 'text': 'u [ix+v1]', 'uses': [
+        {'set': 'idx_only', 'id': 'idx', 'index_id': 'off', 'index_val': V('v1')}]}, expect=['ok', 'rejected'])
+    ok('G:plain-in-first-variant', cfgG(), {'mnemonic': 'u', 'variant': 0, 'text': 'u [ix]', 'uses': [{'set': 'plain_only', 'id': 'plain'}]})
+    rej('G:offset-with-no-form-accepting-it', cfgG(v1=(0, 5)), 'w [ix+v1]')
     rej('D:undeclared-register-form', cfgD2(), 't rb')
     rej('D:indirect-of-unlisted-register', cfgD2(), 't [ix]')
     rej('D:register-in-brackets-as-number', cfgD2(), 't [ra]')
